@@ -75,9 +75,18 @@ def seed_table():
     rows.append(f"\n{det} detected, {miss} missed of {det+miss} run.")
     return "\n".join(rows)
 
+def built_notes():
+    """notes/built.md (the condensed per-property reports of the builders) with its headings demoted two levels."""
+    out = []
+    for l in open(f"{V}/notes/built.md").read().splitlines():
+        if l.startswith("#"):
+            l = "##" + l if not l.startswith("# ") else "#### " + l[2:]
+        out.append(l)
+    return "\n".join(out)
+
 def main():
     p = f"{V}/DESIGN.md"; s = open(p).read()
-    for name, fn in (("theorem-table", theorem_table), ("findings-table", findings_table), ("seed-table", seed_table)):
+    for name, fn in (("theorem-table", theorem_table), ("findings-table", findings_table), ("seed-table", seed_table), ("built-notes", built_notes)):
         b, e = f"<!-- BEGIN {name} -->", f"<!-- END {name} -->"
         if b in s and e in s:
             s = s[:s.index(b) + len(b)] + "\n" + fn() + "\n" + s[s.index(e):]
